@@ -1,8 +1,13 @@
 import Std.Data.String.ToNat
+import PigeonVerif.Proofs.Scope
 /-
   C04 — every accepted grammar yields Go code that compiles, vets and initialises.
   "Compiles and vets" is a statement about the Go toolchain and is decided by execution
-  (harness/cmd/pve2e). Kernel-checked here: the naming scheme of the generated methods.
+  (harness/cmd/pve2e). Kernel-checked here: the naming scheme of the generated methods, and the last sentence of the
+  property - "each code block becomes exactly one method that receives exactly the labels in its scope" - for the model
+  `Back.walk` of the generator's label stack (Model/Back.lean), which is tied to the real generator by the REGENERATED
+  obligations of `PigeonVerif/Generated/*` (the parameter lists the working tree's pigeon writes for every grammar of the
+  repository are read back from the emitted `callon…` methods and must equal `Back.assign`, by `decide`) and by `pve2e`.
 -/
 
 namespace PV
@@ -25,6 +30,109 @@ theorem C04_funcName_injective_in_rule (rule : String) (i j : Nat) (h : funcName
     simp only [String.toList_append] at this
     exact String.ext (List.append_cancel_left this)
   exact Nat.repr_injective h1
+
+/-! ### each code block receives exactly the labels in its scope -/
+
+mutual
+/-- the code blocks of an expression, in the order the generator renders them -/
+def codeBlocks : Expr → List Nat
+  | .action _ blk e => codeBlocks e ++ [blk]
+  | .andCode _ blk | .notCode _ blk | .stateCode _ blk => [blk]
+  | .labeled _ _ e | .and _ e | .not _ e | .oneOrMore _ e | .zeroOrMore _ e | .zeroOrOne _ e => codeBlocks e
+  | .choice _ _ _ es | .seq _ es => codeBlocksL es
+  | .recovery _ e r _ => codeBlocks e ++ codeBlocks r
+  | .any _ | .cls _ _ | .lit _ _ _ _ | .ruleRef _ _ | .throw _ _ => []
+def codeBlocksL : List Expr → List Nat
+  | [] => []
+  | e :: es => codeBlocks e ++ codeBlocksL es
+end
+
+mutual
+theorem walk_blocks (cur : List String) : ∀ e : Expr, (walk cur e).2.map (·.1) = codeBlocks e
+  | .action _ _ e => by simp [walk, codeBlocks, walk_blocks cur e]
+  | .andCode .. | .notCode .. | .stateCode .. => by simp [walk, codeBlocks]
+  | .labeled _ _ e | .and _ e | .not _ e | .oneOrMore _ e | .zeroOrMore _ e | .zeroOrOne _ e => by
+    simp [walk, codeBlocks, walk_blocks [] e]
+  | .choice _ _ _ es => by simp [walk, codeBlocks, walkAlts_blocks es]
+  | .recovery _ e r _ => by simp [walk, codeBlocks, walk_blocks [] e, walk_blocks _ r]
+  | .seq _ es => by simp [walk, codeBlocks, walkSeq_blocks cur es]
+  | .any _ | .cls .. | .lit .. | .ruleRef .. | .throw .. => by simp [walk, codeBlocks]
+theorem walkSeq_blocks (cur : List String) : ∀ es : List Expr, (walkSeq cur es).2.map (·.1) = codeBlocksL es
+  | [] => by simp [walkSeq, codeBlocksL]
+  | e :: es => by simp [walkSeq, codeBlocksL, walk_blocks cur e, walkSeq_blocks _ es]
+theorem walkAlts_blocks : ∀ es : List Expr, (walkAlts es).map (·.1) = codeBlocksL es
+  | [] => by simp [walkAlts, codeBlocksL]
+  | e :: es => by simp [walkAlts, codeBlocksL, walk_blocks [] e, walkAlts_blocks es]
+end
+
+/-- **C04 (one method per code block).** The generator renders one (block, parameter list) pair per code-bearing node of the
+    grammar, in visiting order - nothing is rendered twice, nothing is skipped (whatever the label stack holds). -/
+theorem C04_one_method_per_code_block (rules : List Rule) :
+    (assign rules).map (·.1) = rules.flatMap (fun r => codeBlocks r.expr) := by
+  unfold assign
+  induction rules with
+  | nil => rfl
+  | cons r rs ih => simp only [List.flatMap_cons, List.map_append, ih, walk_blocks]
+
+/-- **C04 (the labels in scope, dynamically).** In the PEG semantics (`Spec.eval`, which the runtime model refines), a
+    successful match of `e` extends the scope it was started in by exactly `binds e`: the labels of the labelled items on the
+    spine of `e`, in order - for every grammar, code environment, input and depth. Labels bound inside the scopes that `e`
+    opens (alternatives, repetitions, predicates, labelled operands, rules) never escape. -/
+theorem C04_scope_after_match (E : Env) (f : Nat) (c : Spec.Ctx) (e : Expr) (env : List (String × Val)) (pt : Savepoint)
+    (w : Spec.World) (v : Val) (pt' : Savepoint) (env' : List (String × Val)) (w' : Spec.World)
+    (hs : spine e = true) (h : Spec.eval E f c e env pt w = .ok v pt' env' w') :
+    keys env' = (binds e).reverse ++ keys env := env_binds E f c e env pt w v pt' env' w' hs h
+
+/-- **C04 (an action receives exactly the labels in its scope).** Let the generator's current label list `cur` be the scope
+    `env` in which the action `e1 {blk}` is started (as lists: the generator appends, the runtime conses). Then the parameter
+    list the generator renders for `blk` is exactly the list of labels that are bound when the block is called, i.e. the
+    scope after the operand has matched. -/
+theorem C04_action_receives_its_scope (E : Env) (f : Nat) (c : Spec.Ctx) (id blk : Nat) (e1 : Expr)
+    (env : List (String × Val)) (pt : Savepoint) (w : Spec.World) (v1 : Val) (pt1 : Savepoint)
+    (env1 : List (String × Val)) (w1 : Spec.World) (cur : List String)
+    (hs : spine e1 = true) (hcur : keys env = cur.reverse)
+    (h : Spec.eval E f c e1 env pt w = .ok v1 pt1 env1 w1) :
+    (blk, (keys env1).reverse) ∈ (walk cur (.action id blk e1)).2 := by
+  have h1 := env_binds E f c e1 env pt w v1 pt1 env1 w1 hs h
+  have h2 := walk_cur cur e1
+  simp only [walk, List.mem_append, List.mem_singleton]
+  right
+  rw [h1, hcur, h2]
+  simp
+
+/-- **C04 (a predicate / state block receives the labels bound so far).** In a sequence `es1 ++ [code block] ++ es2` the
+    generator renders the block with the labels of `es1` appended to the current list ... -/
+theorem C04_block_in_sequence_static (cur : List String) (es1 es2 : List Expr) (b : Expr) :
+    (walkSeq cur (es1 ++ b :: es2)).2 =
+      (walkSeq cur es1).2 ++ (walk (cur ++ bindsSeq es1) b).2 ++ (walkSeq ((walk (cur ++ bindsSeq es1) b).1) es2).2 := by
+  induction es1 generalizing cur with
+  | nil => simp [walkSeq, bindsSeq]
+  | cons e es ih =>
+    simp only [List.cons_append, walkSeq, bindsSeq]
+    rw [ih, walk_cur]
+    simp [List.append_assoc]
+
+/-- ... and these are exactly the labels bound when `es1` has matched (the point at which the block is called) -/
+theorem C04_block_in_sequence_dynamic (E : Env) (f : Nat) (c : Spec.Ctx) (st0 : Store) (es1 : List Expr)
+    (env : List (String × Val)) (pt : Savepoint) (w : Spec.World) (acc : List Val) (v : Val) (pt' : Savepoint)
+    (env' : List (String × Val)) (w' : Spec.World) (cur : List String)
+    (hs : spineSeq es1 = true) (hcur : keys env = cur.reverse)
+    (h : Spec.evalSeq E (Spec.eval E f) c st0 es1 env pt w acc = .ok v pt' env' w') :
+    (keys env').reverse = cur ++ bindsSeq es1 := by
+  have := seq_binds E (Spec.eval E f) (env_binds E f) c st0 es1 env pt w acc v pt' env' w' hs h
+  rw [this, hcur]; simp
+
+/-- the hypotheses are satisfiable and the statement is not vacuous: `a:"x" b:("y" c:"z") {0}` - the action receives
+    `a, b`; the label `c` of the nested scope does not escape -/
+example :
+    (walk [] (.action 1 0 (.seq 2 [.labeled 3 "a" (.lit 4 [120] false "x"),
+        .labeled 5 "b" (.seq 6 [.lit 7 [121] false "y", .labeled 8 "c" (.lit 9 [122] false "z")])]))).2 = [(0, ["a", "b"])] := by
+  decide
+
+/-- comparison of the generator model with the parameter lists read back from an emitted parser (used by the regenerated
+    obligations `PigeonVerif/Generated/*`) -/
+def checkArgs (rules : List Rule) (args : List (Nat × List String)) : Bool :=
+  args.all (fun p => (assign rules).lookup p.1 == some p.2) && (assign rules).length == args.length
 
 end Back
 end PV
